@@ -45,7 +45,7 @@ class Interp:
         return self.hget("alive", arr(Ref, BoolS), heap)
 
     def alloc(self, typ, note="new"):
-        r = self.c.fresh(f"{tname(typ)}", Ref)
+        r = self.c.fresh(f"new:{tname(typ)}", Ref)  # "new:": allocation order is part of the path, the name is shared by aligned runs
         al = self.alive()
         self.c.assume(z3.Not(z3.Select(al, r)))
         # distinct from every WF snapshot's alive set as well (allocation is monotone)
